@@ -118,7 +118,18 @@ def _():
     pol = FunctionalPolicy(lambda s: DictDistribution({'left': .5, 'right': .5}))
     r1 = pol.run_on(mdp(), rng=random.Random(11), max_steps=20)
     ev = pol.evaluate_on(mdp(), n_simulations=5, max_steps=20, rng=random.Random(11))
-    return dict(states=r1.state, actions=r1.action, init=ev.initial_value, sv=dict(ev.state_value.items()))
+    # the same soft policy as a TABLE (rows are table-backed distributions), and a planner's tabular policy with tied actions
+    from msdm.core.mdp.tabularpolicy import TabularPolicy
+    from msdm.algorithms import ValueIteration
+    m = mdp()
+    tpol = TabularPolicy.from_state_action_lists(state_list=tuple(S), action_list=A, data=[[.25, .75] for _ in S])
+    r2 = tpol.run_on(m, rng=random.Random(11), max_steps=20)
+    tie = QuickTabularMDP(next_state_dist=lambda s, a: DictDistribution({'goal': .5, 's0': .5}) if s == 's0' else DictDistribution({'goal': 1.}), reward=-1., actions=A,
+                          initial_state='s0', is_absorbing=lambda s: s == 'goal', discount_rate=.9)
+    vpol = ValueIteration().plan_on(tie).policy
+    r3 = vpol.run_on(tie, rng=random.Random(0), max_steps=15)
+    return dict(states=r1.state, actions=r1.action, init=ev.initial_value, sv=dict(ev.state_value.items()),
+                tab_states=r2.state, tab_actions=r2.action, tied_actions=r3.action)
 
 
 @comp('pomdp-rollout')
